@@ -286,11 +286,14 @@ Inductive G_id_interval : list Z -> list Z -> Prop :=
     G_int l1 id -> G_opt l2 num stride -> num < MAX_NUM_ELEMS ->
     G_id_interval (l1 ++ l2) (expand_ids id num stride).
 
+(* X-list = X | X-list "," X    (used for <id-list> and <list>); the value is the concatenation *)
+Inductive G_sep {A : Type} (item : list Z -> list A -> Prop) : list Z -> list A -> Prop :=
+| G_sep_one l v : item l v -> G_sep item l v
+| G_sep_more l1 v1 l2 l3 v3 :
+    G_sep item l1 v1 -> G_sym 44 l2 -> item l3 v3 -> G_sep item (l1 ++ l2 ++ l3) (v1 ++ v3).
+
 (* <id-list> *)
-Inductive G_id_list : list Z -> list Z -> Prop :=
-| G_id_list_one l v : G_id_interval l v -> G_id_list l v
-| G_id_list_more l1 v1 l2 l3 v3 :
-    G_id_list l1 v1 -> G_sym 44 l2 -> G_id_interval l3 v3 -> G_id_list (l1 ++ l2 ++ l3) (v1 ++ v3).
+Definition G_id_list : list Z -> list Z -> Prop := G_sep G_id_interval.
 
 (* <es-id-list> *)
 Inductive G_es_id_list : list Z -> list Z -> Prop :=
@@ -305,10 +308,7 @@ Inductive G_interval : list Z -> list (list Z) -> Prop :=
     G_interval (l1 ++ l2) (expand_lists base num stride).
 
 (* <list> *)
-Inductive G_list : list Z -> list (list Z) -> Prop :=
-| G_list_one l v : G_interval l v -> G_list l v
-| G_list_more l1 v1 l2 l3 v3 :
-    G_list l1 v1 -> G_sym 44 l2 -> G_interval l3 v3 -> G_list (l1 ++ l2 ++ l3) (v1 ++ v3).
+Definition G_list : list Z -> list (list Z) -> Prop := G_sep G_interval.
 
 (* the whole string: <list> followed by optional white space *)
 Inductive G_affinity : list Z -> list (list Z) -> Prop :=
